@@ -224,12 +224,18 @@ def rule_r3_r4(ck, prog, cg, roles):
                 for ep in exports:
                     if ep.ctx is not cp.ctx:
                         continue
-                    for j in ep.f.subtree(ep.n['i']):
-                        m = ep.f.nodes[j]
-                        if m['k'] == 'call' and strip_targs(m.get('c', '')).rsplit('::', 1)[-1] in ('data', 'size') and m.get('obj') is not None:
-                            o = ep.f.nodes[m['obj']]
-                            if o['k'] == 'ref':
-                                exported.add(o.get('id'))
+                    # the argument, or the local view it was built into, is made of data()/size() of the container
+                    roots = [(ep.f, ep.n['i'], ep.ctx)]
+                    for a in ep.n.get('args', []):
+                        if a is not None and a >= 0:
+                            roots += [(sf, sn['i'], sc) for (sf, sn, sc) in origins(g, rd, ep.f, a, ep.ctx)]
+                    for (sf, ri, sc) in roots:
+                        for j in sf.subtree(ri):
+                            m = sf.nodes[j]
+                            if m['k'] == 'call' and strip_targs(m.get('c', '')).rsplit('::', 1)[-1] in ('data', 'size') and m.get('obj') is not None:
+                                o = sf.nodes[m['obj']]
+                                if o['k'] == 'ref':
+                                    exported.add(o.get('id'))
                 if pushed and exported and pushed & exported:
                     ck.holds('C01.R3', lf, 'taken-pointer-exported', None, 'the taken element is appended to the container handed to Export')
                     # the container must be fresh in every iteration: between one Export and the next Consume it is
